@@ -114,6 +114,11 @@ func (s *verifSystem) havocAll() {
 	s.havocMemories()
 	vHavoc("oam", s.o)
 	vAssume(s.o.VerifDmaInv())
+	// at a machine-cycle boundary: no latched corruption flags, and the window is open only in mode 2 with the LCD on (C17)
+	vAssume(!s.o.VerifFlags())
+	vAssume(!s.o.VerifCorrupt() || (s.p.VerifEnabled() && s.p.VerifMode() == 2))
+	vAssume(!s.o.VerifCorrupt() || (s.o.VerifPPULast() >= 0xfe00 && s.o.VerifPPULast() <= 0xfe9f))
+	vHavoc("serial", s.s)
 	vHavoc("intr", s.intr)
 	vHavoc("timer", s.t)
 	vAssume(s.t.VerifInv()) // C12
